@@ -88,6 +88,7 @@ def _place(rng, mol, species, n_sites, required=()):
 def gen_config(rng, all_atom=None, tier="quick"):
     all_atom = (rng.random() < 0.65) if all_atom is None else all_atom
     wild = rng.random() < 0.15
+    weighted = rng.random() < 0.35
     species = _species(rng)
     n_frag = rng.choice([1, 2, 2, 3, 3, 4])
     names = rng.sample(NAMES, n_frag)
@@ -99,6 +100,11 @@ def gen_config(rng, all_atom=None, tier="quick"):
         for _ in range(8):
             if all_atom:
                 mol = gen_mol.gen_atomistic(rng, rng.randint(1, 7), rich=rng.random() < 0.35)
+                if weighted:
+                    for atom in mol.atoms:
+                        if not atom["arom"] and rng.random() < 0.4:
+                            atom["w"] = rng.choice([0.5, 2.0, 0, 0.25, 3.0])
+                            atom["wpos"] = rng.random() < 0.7
             else:
                 mol = gen_mol.gen_coarse(rng, rng.randint(1, 5))
             share = [pending.pop() for _ in range(min(len(pending), -(-len(pending) // (n_frag - idx))))]
